@@ -6,6 +6,8 @@ func init() {
 		NotCovered:  []string{"rank equality with a fresh parse of the printed text (goes through go/printer)"},
 	}, func(e *Env) {
 		e.RCursor(true)
+		e.RCommentLines()
+		e.RCommentsNotShared()
 		e.RAstOrder()
 	})
 }
